@@ -1351,7 +1351,11 @@ func (m *Machine) call(x *ssa.Call, state map[string]Vec) {
 	callee := x.Call.StaticCallee()
 	if callee != nil && !x.Call.IsInvoke() && core.InModule(callee) && len(callee.Blocks) > 0 && m.depth < 4 {
 		sub := &Machine{Prog: m.Prog, Fn: callee, env: map[ssa.Value]Vec{}, mem: map[*ssa.BasicBlock]map[string]Vec{}, names: map[ssa.Value]string{}, bind: map[ssa.Value]Vec{}, depth: m.depth + 1, parent: m,
-			alias: map[ssa.Value]sliceAlias{}}
+			alias: map[ssa.Value]sliceAlias{}, assume: m.assume}
+		if m.force != nil {
+			// the case split of the caller is the callee's too (a branch on the same input bit moved into a helper)
+			sub.force, sub.deadEdge = m.force, map[[2]*ssa.BasicBlock]bool{}
+		}
 		m.Subs = append(m.Subs, sub)
 		for i, p := range callee.Params {
 			if i < len(x.Call.Args) {
@@ -1374,6 +1378,58 @@ func (m *Machine) call(x *ssa.Call, state map[string]Vec) {
 		// callee sees the caller's memory for cells with the same names
 		sub.mem[nil] = state
 		sub.runWithState(state)
+		// writes of the callee into a slice of the caller (a header field written by a small helper that
+		// is handed buf[i:]) are the caller's writes: the bytes of every aliased buffer are taken from the
+		// callee's return states (equal on all returns, unknown otherwise)
+		for prm, al := range sub.alias {
+			var arg ssa.Value
+			for i, q := range callee.Params {
+				if q == prm && i < len(x.Call.Args) {
+					arg = x.Call.Args[i]
+				}
+			}
+			if arg == nil {
+				continue
+			}
+			prefix := al.rn + "["
+			var rets []map[string]Vec
+			for _, b := range callee.Blocks {
+				if len(b.Instrs) == 0 {
+					continue
+				}
+				if _, isRet := b.Instrs[len(b.Instrs)-1].(*ssa.Return); !isRet {
+					continue
+				}
+				if rs, ok := sub.mem[b]; ok {
+					rets = append(rets, rs)
+				}
+			}
+			changed := map[string]Vec{}
+			for _, rs := range rets {
+				for k, v := range rs {
+					if !strings.HasPrefix(k, prefix) {
+						continue
+					}
+					if old, had := state[k]; had && vecEqual(old, v) {
+						continue
+					}
+					changed[k] = v
+				}
+			}
+			for k, v := range changed {
+				for _, rs := range rets {
+					if o, ok := rs[k]; !ok || !vecEqual(o, v) {
+						changed[k] = topVec(len(v))
+					}
+				}
+			}
+			for k, v := range changed {
+				if m.inLoop[x.Block()] && !m.iterationLocalSlice(arg) {
+					v = topVec(len(v))
+				}
+				state[k] = v
+			}
+		}
 		if w == 0 {
 			// no scalar result to bind: the callee was executed for the values it computes (EachValue)
 			return
